@@ -331,6 +331,40 @@ def drv_tetra_mesh(ph, w, a, st):
     return out
 
 
+def svecs_vs_bruteforce(prim, sc, svecs, multi, symprec=1e-5):
+    """The harness's own reference for set_smallest_vectors_{sparse,dense} (no in-repository Python version exists): for every
+    (supercell atom, primitive atom) pair the returned vectors must be exactly the set of shortest periodic images, each counted
+    once.  Returns [largest distance of a returned vector from the brute-force set (angstrom), number of pairs whose multiplicity differs]."""
+    import itertools
+
+    from phonopy.structure.cells import sparse_to_dense_svecs
+
+    svecs, multi = np.array(svecs), np.array(multi)
+    if multi.ndim == 2:
+        svecs, multi = sparse_to_dense_svecs(svecs, multi)
+    Ls, Lp = np.array(sc.cell), np.array(prim.cell)
+    fs = np.array(sc.scaled_positions)
+    imgs = np.array(list(itertools.product(range(-3, 4), repeat=3)), dtype=float)
+    worst, multi_bad = 0.0, 0
+    for i in range(len(fs)):
+        for jp, j in enumerate(prim.p2s_map):
+            d0 = fs[i] - fs[j]
+            d0 -= np.rint(d0)
+            cand = (d0[None, :] + imgs) @ Ls
+            dist = np.linalg.norm(cand, axis=1)
+            sel = cand[dist < dist.min() + symprec]
+            m, adrs = int(multi[i, jp, 0]), int(multi[i, jp, 1])
+            if m != len(sel):
+                multi_bad += 1
+                continue
+            got = svecs[adrs:adrs + m] @ Lp
+            for g in got:
+                worst = max(worst, float(np.min(np.linalg.norm(sel - g[None, :], axis=1))))
+            for x in sel:
+                worst = max(worst, float(np.min(np.linalg.norm(got - x[None, :], axis=1))))
+    return np.array([worst, float(multi_bad)])
+
+
 def drv_fc_kernels(ph, w, a, st):
     """The serial kernels behind force-constant handling, on the shapes and index maps the Python layer passes:
     distribute_fc2 (finite-difference solver), perm_trans_symmetrize_fc / _compact_fc, transpose_compact_fc (drift
@@ -358,11 +392,30 @@ def drv_fc_kernels(ph, w, a, st):
     svecs, multi = p2.primitive.get_smallest_vectors()
     out["svecs"] = np.array(svecs)
     out["multi"] = np.array(multi)
+    out["svecs_vs_bruteforce"] = svecs_vs_bruteforce(p2.primitive, p2.supercell, svecs, multi)
+    # model checks for kernels without a Python version (each entry: residual that must vanish)
+    model = {}
+    pos = np.array(p2.supercell.scaled_positions)
+    perms = np.array(p2.primitive.atomic_permutations)
+    worst = 0.0
+    for prm in perms:
+        if sorted(prm.tolist()) != list(range(len(pos))):
+            worst = max(worst, 1.0)  # not a permutation
+            continue
+        dlt = pos[prm] - pos
+        dlt -= dlt[0]
+        dlt -= np.rint(dlt)
+        worst = max(worst, float(np.max(np.abs(dlt))))  # one pure translation moves every atom
+    model["atomic_permutations:not-one-translation"] = worst
     out["perms"] = np.array(p2.primitive.atomic_permutations)
     p2.generate_displacements(distance=0.03, is_plusminus=("auto" if a["gamma_center"] else True), is_diagonal=a["mesh_symmetry"])
     p2.forces = w.type1_forces(p2, fc_full)
     p2.produce_force_constants(calculate_full_force_constants=not a["compact"])
     out["fc_fd"] = np.array(p2.force_constants)
+    fsc = float(np.max(np.abs(fc_full)))
+    want = fc_full if out["fc_fd"].shape[0] == fc_full.shape[0] else fc_full[p2.primitive.p2s_map]
+    # exact harmonic forces of a space-group invariant model: the finite-displacement solver must return the model
+    model["finite_displacement_fc:differs-from-model"] = float(np.max(np.abs(out["fc_fd"] - want))) / fsc
     f = np.array(noisy)
     symmetrize_force_constants(f, level=level)
     out["sym_full"] = f
@@ -375,6 +428,10 @@ def drv_fc_kernels(ph, w, a, st):
     out["transposed_twice"] = c2
     out["c2f"] = compact_fc_to_full_fc(p2.primitive, np.ascontiguousarray(fc_full[p2.primitive.p2s_map]))
     out["f2c"] = full_fc_to_compact_fc(p2.primitive, np.array(fc_full))
+    model["compact_to_full:differs-from-model"] = float(np.max(np.abs(out["c2f"] - fc_full))) / fsc
+    model["full_to_compact:differs-from-model"] = float(np.max(np.abs(out["f2c"] - fc_full[p2.primitive.p2s_map]))) / fsc
+    out["model_residuals"] = np.array([model[k] for k in sorted(model)])
+    st["model_residual_names"] = sorted(model)
     p2.force_constants = np.array(fc_full)
     p2.set_force_constants_zero_with_radius(2.5 + 0.5 * len(a["temperatures"]))
     out["cutoff"] = np.array(p2.force_constants)
@@ -578,6 +635,16 @@ def execute(spec):
             # the pure-Python construction (compute_permutation fallback) must give the same index maps; the Python
             # symmetriser the same force constants
             pyref = {"sym_full": pyref["sym_full"]}
+            sv = ref.get("svecs_vs_bruteforce")
+            if sv is not None and (sv[0] > 1e-6 or sv[1] > 0):
+                violations.append({"class": "reference-divergence", "site": "fc_kernels:smallest_vectors",
+                                   "detail": dict(max_distance_from_shortest_image_set=float(sv[0]), pairs_with_wrong_multiplicity=int(sv[1]),
+                                                  dense=bool(a["dense_svecs"]), ref="brute-force shortest periodic images (harness reference model)")})
+            probes["smallest_vectors_checked_against_brute_force"] = 1
+            for nm, val in zip(st.get("model_residual_names", []), ref.get("model_residuals", [])):
+                if not (val <= 1e-8):
+                    violations.append({"class": "reference-divergence", "site": "fc_kernels:" + nm,
+                                       "detail": dict(residual=float(val), ref="harness reference model (translation-invariant spring model)")})
         elif driver == "mesh_tp":
             E.use("serial")
             _reset(ph)
